@@ -337,3 +337,8 @@ def _real_scipy(ct, tier, seed):
 
 contract('C14.runtime.real_scipy', [OPT + ':OptimizerGeneric.optimize', OPT + ':LeastSquares.optimize', OPT + ':DualAnnealing.optimize',
                                     OPT + ':DifferentialEvolution.optimize', OPT + ':OptimizerGeneric.undo'], ['C14'], custom=_real_scipy)(lambda c: None)
+
+
+# concrete inputs found by the defect-hunting sub-agents (bounded replay, see contracts/hunt.py)
+from . import hunt as _hunt  # noqa: E402
+_hunt.register('C14')
